@@ -107,7 +107,7 @@ def std_attrs(family=0):
 
 
 def mk_raster(kind, dtype, layout="C", backend="numpy", seed=0, nan=False, name="r", h=H, w=W, chunks=(4, 4),
-              frac=False, coordscale=1, attrs_family=0):
+              frac=False, coordscale=1, attrs_family=0, degen=None):
     """-> (DataArray, mem) where mem is the numpy array that backs it (for dask: the from_array source)."""
     np = _np()
     import xarray as xr
@@ -122,6 +122,13 @@ def mk_raster(kind, dtype, layout="C", backend="numpy", seed=0, nan=False, name=
         v[h - 1, w - 1] = np.nan
         v[0, w - 1] = np.inf
         v[h - 1, 0] = -np.inf
+    # degenerate value families: every cell NaN (float rasters), one constant, all zero
+    if degen == "allnan" and dt.kind == "f":
+        v = np.full((h, w), np.nan)
+    elif degen == "const":
+        v = np.full((h, w), 5.0)
+    elif degen == "zero":
+        v = np.zeros((h, w))
     mem = lay(v.astype(dt), layout)
     data = mem
     if backend == "dask":
@@ -132,7 +139,16 @@ def mk_raster(kind, dtype, layout="C", backend="numpy", seed=0, nan=False, name=
     # besides the index coordinates: two scalar coordinates and a 2-D auxiliary (non-index) coordinate
     coords = {"y": ("y", co["y"]), "x": ("x", co["x"]), "band": 1, "spatial_ref": 0,
               "lat2d": (("y", "x"), co["y"].reshape(h, 1) * 100.0 + co["x"].reshape(1, w))}
-    agg = xr.DataArray(data, dims=["y", "x"], coords=coords, attrs=std_attrs(attrs_family), name=name)
+    attrs = std_attrs(attrs_family)
+    if attrs_family >= 1:
+        # metadata about missing data whose value OCCURS in the raster: a tool that "honours" it must not edit the input
+        fin = v[np.isfinite(v)]
+        cell = fin.flat[min(8, fin.size - 1)] if fin.size else 0.0
+        top = fin.max() if fin.size else 0.0
+        num = (lambda x: float(x)) if dt.kind == "f" else (lambda x: int(x))
+        attrs.update({"nodata": num(cell), "_FillValue": num(cell), "missing_value": num(top), "scale_factor": 1.0,
+                      "add_offset": 0.0})
+    agg = xr.DataArray(data, dims=["y", "x"], coords=coords, attrs=attrs, name=name)
     return agg, mem
 
 
@@ -452,7 +468,7 @@ def public(p):
 
 
 def build_inputs(entry, dtype, layout, backend, seed=0, h=H, w=W, finite=False, p=None, single_chunk=False, coordscale=1,
-                 nonfinite=False, attrs_family=0):
+                 nonfinite=False, attrs_family=0, degen=None):
     """-> list of (role, xarray object, [mem arrays]).  finite=True: no NaN / inf anywhere (and non-integral float values):
     in-place sorts, cumulative operations and normalisations only bite on all-finite, unsorted inputs."""
     np = _np()
@@ -473,7 +489,7 @@ def build_inputs(entry, dtype, layout, backend, seed=0, h=H, w=W, finite=False, 
             dt = "int32"
         a, m = mk_raster(kind, dt, layout, backend, seed=seed + opts.get("seed", 0),
                          nan=(opts.get("nan", False) and not finite) or nonfinite, frac=finite, name=role,
-                         attrs_family=attrs_family,
+                         attrs_family=attrs_family, degen=degen,
                          chunks="single" if single_chunk else opts.get("chunks", (4, 4) if h == H else (h // 3 + 1, w // 2 + 1)),
                          h=h, w=w, coordscale=coordscale)
         out.append((role, a, [m]))
